@@ -42,9 +42,17 @@ def canon_times(rows):
     return [tuple(dbutil.canon_val(x)[1] if isinstance(x, (datetime.date, datetime.datetime)) else x for x in r) for r in rows]
 
 
+def jsql_top(e, q=""):
+    """like jsql() without the outermost parentheses (a definition written the way users write it: c0 - c1)"""
+    t = jsql(e, q)
+    return t[1:-1] if e[0] in ("add", "sub", "mul") and t.startswith("(") and t.endswith(")") else t
+
+
 def jsql(e, q=""):
     """render an expression over the J schema"""
     k = e[0]
+    if k == "dref":      # a reference to dimension number e[1] of the query BY NAME (its expression e[2] is what the reference semantics sees)
+        return f"{q}{dim_name(e[1], e[2])}"
     if k == "col":
         return f"{q}{JCOLS[e[1]]}"
     if k == "lit":
@@ -192,7 +200,7 @@ def real_layer(f, metrics_by_model, dims_by_model, extra_model_kw=None):
                 uniq.append((dn, e))
         dims = [(Dimension(name=dn, type="time", granularity="day", sql="(TIMESTAMP '2024-01-15 00:00:00' + %s * INTERVAL 20 DAY)" % JCOLS[e[2]]) if e[0] == "tdim" else
                  Dimension(name=dn, type="time", granularity="day", sql="(TIMESTAMP '2024-01-29 00:00:00' + %s * INTERVAL 2 DAY)" % JCOLS[e[2]]) if e[0] == "tdim2" else
-                 Dimension(name=dn, type=("categorical" if e == jcol("s0") else "numeric"), sql=jsql(e))) for dn, e in uniq]
+                 Dimension(name=dn, type=("categorical" if e == jcol("s0") else "numeric"), sql=jsql_top(e))) for dn, e in uniq]
         mets = [Metric(name=mn, agg=a, sql=(jsql(e) if e else None), filters=[jsql(x, "{model}.") for x in fl] or None) for mn, a, e, fl in metrics_by_model.get(m["name"], [])]
         kw = dict((extra_model_kw or {}).get(m["name"], {}))
         L.add_model(Model(name=m["name"], table=m["name"], primary_key=model_pk(m), relationships=rels, dimensions=dims, metrics=mets, **kw))
